@@ -56,11 +56,11 @@ type Call struct {
 }
 
 type Case struct {
-	Property string `json:"property"`
-	Kind     string `json:"kind"` // flatten | failsafe | mixin | readers
-	Index    int64  `json:"index"`
-	GenSeed  uint64 `json:"gen_seed"`
-	Class    string `json:"class,omitempty"` // W | W+
+	Property string   `json:"property"`
+	Kind     string   `json:"kind"` // flatten | failsafe | mixin | readers
+	Index    int64    `json:"index"`
+	GenSeed  uint64   `json:"gen_seed"`
+	Class    string   `json:"class,omitempty"` // W | W+
 	Features []string `json:"features,omitempty"`
 
 	Disk map[string]string `json:"disk,omitempty"`
@@ -103,19 +103,19 @@ type Failure struct {
 
 // Verdict of executing one case.
 type Verdict struct {
-	Index      int64     `json:"index"`
-	Failures   []Failure `json:"failures,omitempty"`
-	Infra      string    `json:"infra,omitempty"` // harness/generator trouble: exit 2
-	Evals      int64     `json:"evals"`           // executions of code under test
-	Nontrivial bool      `json:"nontrivial"`
-	Distinct   []uint64  `json:"distinct,omitempty"` // keys of distinct non-trivial executions
-	Steps      int64     `json:"steps"`
-	MaxSteps   int64     `json:"max_steps"`
-	Loads      int64     `json:"loads"`
+	Index      int64            `json:"index"`
+	Failures   []Failure        `json:"failures,omitempty"`
+	Infra      string           `json:"infra,omitempty"` // harness/generator trouble: exit 2
+	Evals      int64            `json:"evals"`           // executions of code under test
+	Nontrivial bool             `json:"nontrivial"`
+	Distinct   []uint64         `json:"distinct,omitempty"` // keys of distinct non-trivial executions
+	Steps      int64            `json:"steps"`
+	MaxSteps   int64            `json:"max_steps"`
+	Loads      int64            `json:"loads"`
 	Counters   map[string]int64 `json:"counters,omitempty"`
 	SitePert   map[string]int64 `json:"site_pert,omitempty"`
-	OutHash    uint64    `json:"out_hash,omitempty"`
-	Case       *Case     `json:"case,omitempty"` // present when failing or when a sample was requested
+	OutHash    uint64           `json:"out_hash,omitempty"`
+	Case       *Case            `json:"case,omitempty"` // present when failing or when a sample was requested
 }
 
 func (v *Verdict) count(name string, n int64) {
